@@ -43,7 +43,7 @@ From AV Require Import Base.Bytes Base.Outcome Hash.HashModel Tree.Heap Tree.Ops
   Tree.InvProofsDetFiles Tree.InvProofsDetFilesMain Tree.InvProofsOp2 Tree.InvExamples
   Tree.InvProofsChars Tree.InvProofsChars5 Tree.InvProofsOrigins3 Tree.InvProofsReal Tree.InvProofsRealTables Spec.SpecReal.
 From AV Require Import Tree.Script2 Tree.InvLoad Tree.InvProofsOp2Full Tree.InvProofsLoadExamples Tree.InvProofsOp2Lift
-  Tree.InvProofsOp2Real Tree.InvEBase Tree.InvProofsLoadLive Tree.InvProofsOp2Live Tree.InvProofsOp2Rej.
+  Tree.InvProofsOp2Real Tree.InvEBase Tree.InvProofsLoadLive Tree.InvProofsOp2Live Tree.InvProofsOp2Rej Tree.InvE_Main Tree.InvL_Base Tree.InvL_Main Tree.InvL_Op2.
 From AV Require Xml.TablesOk.
 From AV Require Tree.Load Tree.MergeSpec Tree.LoadProofsRefuted.
 Open Scope string_scope.
@@ -300,6 +300,33 @@ Proof. exact load_rejected_core. Qed.
 
 Theorem C03_load_master_real : RealInvL MergeSpec.TinyM.tiny w_f01.
 Proof. exact load_master_real. Qed.
+
+(* ---------- DetFiles for live nodes: DFL = a detached node has no local file set or is a dead node ([65535]) ---------- *)
+Theorem C03_treeinv_live_inv :
+  forall (T : tables) (tab_el tab_en : nametab) (check_fn : N -> list N -> res bool) (LATEST : N)
+         (root_attrs : list (N * cdata)) (o : op) (w : world) (r : out value) (w' : world),
+    TreeInvL w -> Inv.Known T tab_el tab_en check_fn LATEST root_attrs w o = false ->
+    Inv.run T tab_el tab_en check_fn LATEST root_attrs o w = Val (r, w') -> TreeInvL w'.
+Proof. exact TreeInvL_step. Qed.
+
+Theorem C03_detfiles_live_inv :
+  forall (T : tables) (tab_el tab_en : nametab) (check_fn : N -> list N -> res bool) (LATEST : N)
+         (root_attrs : list (N * cdata)) (o : op) (w : world) (r : out value) (w' : world),
+    TreeInvL w -> DFL w -> Inv.run T tab_el tab_en check_fn LATEST root_attrs o w = Val (r, w') -> DFL w'.
+Proof. exact DF_stepL. Qed.
+
+Theorem C03_detfiles_live_inv2_partial :
+  forall (T : tables) (tab_el tab_at tab_en : nametab) (check_fn : N -> list N -> res bool)
+         (float_parse : list N -> option N) (float_fmt : N -> list N)
+         (LATEST name_index name_definition_ref attr_schema_location : N) (root_attrs : list (N * cdata))
+         (o : op2) (w : world) (r : out value2) (w' : world),
+    TreeInvL w -> DFL w -> pending_real2 o = false ->
+    run_op2 T tab_el tab_at tab_en check_fn float_parse float_fmt LATEST name_index name_definition_ref
+            attr_schema_location root_attrs o w = Val (r, w') -> DFL w'.
+Proof. exact DFL_step2_partial. Qed.
+
+Theorem C03_detfiles_live_of : forall w : world, DF w -> DFL w /\ (DFL w -> DetFilesL w).
+Proof. exact (fun w D => conj (DF_DFL w D) (DFL_DetFilesL w)). Qed.
 
 (* ---------- the artefact classes are empty on the real tables ---------- *)
 (* CharsLeaf: an element whose content mode is Characters has no sub-elements; kept by every operation, every table set *)
